@@ -264,10 +264,12 @@ pub fn main(args: &[String]) -> i32 {
                 _ => None,
             };
             obs::api("api_call", &key, call_idx, 0, 0);
-            let res = if use_ttl {
-                store.insert_with_ttl_and_timestamp(&key, &val, rng.random_range(1..3), ts_choice)
-            } else {
-                store.insert_with_timestamp(&key, &val, ts_choice)
+            let as_bytes = rng.random_bool(0.4);
+            let res = match (use_ttl, as_bytes) {
+                (true, false) => store.insert_with_ttl_and_timestamp(&key, &val, rng.random_range(1..3), ts_choice),
+                (true, true) => store.insert_bytes_with_ttl_and_timestamp(&key, bytes::Bytes::from(val.clone()), rng.random_range(1..3), ts_choice),
+                (false, true) => store.insert_bytes_with_timestamp(&key, bytes::Bytes::from(val.clone()), ts_choice),
+                (false, false) => store.insert_with_timestamp(&key, &val, ts_choice),
             };
             if ts_choice.is_none() && matches!(res, Err(feoxdb::FeoxError::OlderTimestamp)) {
                 // C12: an automatically versioned write is never rejected as older
